@@ -193,8 +193,14 @@ def run_cli(argv, stdin_text="", entry="argv"):
     with Stdio(stdin_text) as io_:
         try:
             if entry == "sys.argv":
+                # exactly what the generated console script does:
+                #     sys.exit(main())
+                # -- a value returned by main() becomes the exit status
+                # (and, if it is not an integer, text on stderr)
                 sys.argv = ["isodatetime"] + list(argv)
-                main()
+                returned = main()
+                if returned is not None:
+                    raise SystemExit(returned)
             else:
                 main(list(argv))
             status = "ok"
